@@ -464,9 +464,11 @@ Step(m) ==
        \* (a program that runs off its end cannot be continued)
        IF m.pc.ln = Direct \/ ~InProgram(m.pc) THEN GoReady(m)
        ELSE GoReady([m EXCEPT !.cont = NoCont, !.contx = FALSE])
-  ELSE LET m1 == IF m.tron /\ InProgram(p) /\ p.ln # m.ltr /\ Traceable(m.lst[p.ln])
-                 THEN [Emit(m, <<91>> \o DigitsOf(p.ln) \o <<93>>) EXCEPT !.ltr = p.ln]
-                 ELSE IF ~InProgram(p) THEN [m EXCEPT !.ltr = -1] ELSE m
+  \* entering a line with TRON on prints its number: a step of its own (an interrupt may
+  \* fall between the trace output and the line's first statement)
+  ELSE IF m.tron /\ InProgram(p) /\ p.ln # m.ltr /\ Traceable(m.lst[p.ln])
+       THEN [Emit(m, <<91>> \o DigitsOf(p.ln) \o <<93>>) EXCEPT !.ltr = p.ln, !.pc = p]
+  ELSE LET m1 == IF ~InProgram(p) THEN [m EXCEPT !.ltr = -1] ELSE m
        IN  Exec([m1 EXCEPT !.pc = p], p, StmtAt(CodeOf(m1, p.ln), p.path))
 
 \* big step: run until the machine waits for the user (or the fuel is used up: the run is
